@@ -1,6 +1,7 @@
 package main
 
 import (
+	"sort"
 	"go/ast"
 	"go/token"
 	"go/types"
@@ -684,6 +685,118 @@ func checkC05(c *Check) {
 		if o.Rule == "R5" || (o.Rule == "R4" && strings.Contains(o.Key, "lookup-failure")) {
 			c.Hold("R7", o.Rule+":"+o.Key, o.posRaw, o.OK, o.Msg)
 		}
+	}
+	c05PerDomainState(c)
+}
+
+// R9: a policy's per-message object outlives one destination: the remote target calls PrepareDomain once per
+// recipient domain and PrepareConn once per MX candidate on the same object, and CheckMX / CheckConn read what the
+// Prepare step left in its fields (the future of the policy fetch, of the TLSA lookup). A Prepare step that can skip
+// the assignment because of what an earlier call left there judges the second domain by the first domain's policy.
+// Decided: for every field of the receiver a Prepare* method assigns, every path from entry to exit that does not pass
+// the assignment crosses a condition that reads only state no method of the type ever assigns (configuration).
+func c05PerDomainState(c *Check) {
+	p := c.P
+	c.Rule("R9", "policy objects: what PrepareDomain / PrepareConn leave in the fields of the per-message object for CheckMX / CheckConn is assigned afresh on every call – a path that skips the assignment is guarded only by configuration, never by the object's own earlier state (one message has several recipient domains and MX candidates)", 2)
+	pk := p.Pkg(remoteRel)
+	if pk == nil {
+		c.Fail("R9", "package", token.NoPos, "anchor unresolved")
+		return
+	}
+	// receiver types with PrepareDomain and PrepareConn and CheckMX and CheckConn
+	type methods map[string]*FuncInfo
+	byRecv := map[string]methods{}
+	p.AllFuncs([]*packagesPkg{pk}, func(fi *FuncInfo) {
+		if fi.Decl.Recv == nil {
+			return
+		}
+		rn := recvTypeName(fi.Decl)
+		if byRecv[rn] == nil {
+			byRecv[rn] = methods{}
+		}
+		byRecv[rn][refName(fi.Obj)] = fi
+	})
+	var names []string
+	for rn, ms := range byRecv {
+		if ms["PrepareDomain"] != nil && ms["PrepareConn"] != nil && ms["CheckMX"] != nil && ms["CheckConn"] != nil {
+			names = append(names, rn)
+		}
+	}
+	sort.Strings(names)
+	n := 0
+	for _, rn := range names {
+		ms := byRecv[rn]
+		// fields of the receiver assigned by any method of the type
+		mutable := map[*types.Var]bool{}
+		for _, fi := range ms {
+			info := fi.Info()
+			ast.Inspect(fi.Decl.Body, func(x ast.Node) bool {
+				if as, ok := x.(*ast.AssignStmt); ok {
+					for _, l := range as.Lhs {
+						if fv := fieldOf(info, l); fv != nil {
+							mutable[fv] = true
+						}
+					}
+				}
+				return true
+			})
+		}
+		for _, mn := range []string{"PrepareDomain", "PrepareConn"} {
+			fi := ms[mn]
+			r := c.CtxOf(fi)
+			info := r.Info
+			var recv types.Object
+			if len(fi.Decl.Recv.List) == 1 && len(fi.Decl.Recv.List[0].Names) == 1 {
+				recv = info.Defs[fi.Decl.Recv.List[0].Names[0]]
+			}
+			assigned := map[*types.Var][]Pt{}
+			for _, pt := range r.F.Points() {
+				as, ok := pt.Node().(*ast.AssignStmt)
+				if !ok {
+					continue
+				}
+				for _, l := range as.Lhs {
+					sel, isSel := ast.Unparen(l).(*ast.SelectorExpr)
+					if fv := fieldOf(info, l); fv != nil && isSel && recv != nil && objOf(info, sel.X) == recv {
+						assigned[fv] = append(assigned[fv], pt)
+					}
+				}
+			}
+			// conditions that read only configuration
+			cfgOnly := func(b *cfgBlock, i int) bool {
+				cond, isCase := r.F.Cond(b)
+				if cond == nil || isCase {
+					return false
+				}
+				only := true
+				ast.Inspect(cond, func(x ast.Node) bool {
+					if sel, ok := x.(*ast.SelectorExpr); ok {
+						if fv := fieldOf(info, sel); fv != nil && mutable[fv] {
+							only = false
+						}
+					}
+					if _, isCall := x.(*ast.CallExpr); isCall {
+						only = false
+					}
+					return only
+				})
+				return only
+			}
+			var fields []*types.Var
+			for fv := range assigned {
+				fields = append(fields, fv)
+			}
+			sort.Slice(fields, func(i, j int) bool { return fields[i].Pos() < fields[j].Pos() })
+			for _, fv := range fields {
+				n++
+				c.SawFunc(fi.Name())
+				path, found := r.F.Reach(Query{From: r.Entry(), Inclusive: true, Target: r.F.IsExitPt, Avoid: isPt(assigned[fv]), AvoidEdge: cfgOnly})
+				c.Hold("R9", rn+"."+mn+":"+objName(fv), fi.Decl.Pos(), !found, "the step can return without assigning "+objName(fv)+" afresh, depending on what an earlier call left in the object: the next recipient domain / MX candidate of the same message is judged by the previous one's result (e.g. no MTA-STS policy for the first domain switches enforcement off for the second): "+r.F.Describe(path))
+			}
+		}
+	}
+	if n == 0 {
+		c.Fail("R9", "policies", token.NoPos, "undecided: no per-message policy object with state found")
 	}
 }
 
